@@ -33,7 +33,10 @@ package checker
 //@   at PickFirst 1 after assert [picked-from-cluster-stores] r0 != nil ==> ufb("clusterStore", s.cluster, r0)
 //@   at PickFirst 1 after assert [picked-is-up] r0 != nil ==> storeStateOf(r0) == 0
 //@   at PickFirst 1 after assert [picked-holds-no-peer] r0 != nil ==> !hasPeerOn(s.region, storeIdOf(r0))
+//@   at PickFirst 1 after assert [picked-passes-the-callers-filters] r0 != nil ==> (forall k :: {extraFilters[k]} 0 <= k && k < len(extraFilters) ==> ufb("passT", extraFilters[k], uf("clusterOpts", s.cluster), r0))
+//@   at PickFirst 1 after assert [picked-passes-the-strategys-filters] r0 != nil ==> (forall k :: {s.extraFilters[k]} 0 <= k && k < len(s.extraFilters) ==> ufb("passT", s.extraFilters[k], uf("clusterOpts", s.cluster), r0))
 //@   ensures [adds-only-on-an-up-store-without-a-peer] result != 0 ==> !hasPeerOn(s.region, result) && (exists st *core.StoreInfo :: ufb("clusterStore", s.cluster, st) && storeIdOf(st) == result && storeStateOf(st) == 0)
+//@   ensures [chosen-store-passes-every-extra-filter] result != 0 ==> (exists st *core.StoreInfo :: ufb("clusterStore", s.cluster, st) && storeIdOf(st) == result && (forall k :: {extraFilters[k]} 0 <= k && k < len(extraFilters) ==> ufb("passT", extraFilters[k], uf("clusterOpts", s.cluster), st)) && (forall k :: {s.extraFilters[k]} 0 <= k && k < len(s.extraFilters) ==> ufb("passT", s.extraFilters[k], uf("clusterOpts", s.cluster), st)))
 //@   modifies ghost evres
 
 // The operator constructors are specified and verified under C08/C09; here only what is passed to them matters.
